@@ -50,12 +50,28 @@ impl Prop for C11 {
     }
     fn budget(&self, tier: Tier) -> u64 {
         match tier {
-            Tier::Quick => 300_000,
-            Tier::Thorough => 10_000_000,
+            Tier::Quick => 800_000,
+            Tier::Thorough => 12_000_000,
         }
     }
     fn required_labels(&self) -> Vec<&'static str> {
         vec!["control_request", "control_response", "pci", "iana", "spdm", "secured", "rejected", "with_history"]
+    }
+    fn enumerate(&self, tier: Tier, shard: usize, nshards: usize, f: &mut dyn FnMut(Case)) {
+        let cfg = CtxCfg { addr: 0x23, msg_types: vec![0x7E, 0x05], vendors: vec![(0, 0x1234, 0xAB), (1, 0x00C0FFEE, 9)] };
+        let mut k = 0u32;
+        let mut emit = |bytes: Vec<u8>| {
+            k = k.wrapping_add(1);
+            f(Case { bytes, cfg: cfg.clone(), hist: vec![], cap: 64 + (k % 7) as u16, fill: 0xA0 | (k % 16) as u8, stride: (k % 5) as u8 });
+        };
+        super::enumer::for_each_control_packet(tier, shard, nshards, &mut emit);
+        super::enumer::for_each_header_packet(shard, nshards, &mut emit);
+    }
+    fn enumerated_desc(&self, tier: Tier) -> Option<String> {
+        Some(format!(
+            "the enumerated control messages of C09 ({} control bytes x 256 commands x completion codes x data lengths x PEC valid/invalid) and all 65536 (transport byte, message-type byte) pairs x 3 bodies, each processed with a pre-filled response buffer and compared with decoding",
+            if tier == Tier::Thorough { "all 256" } else { "10" }
+        ))
     }
     fn run(&self, case: &Case) -> CaseResult {
         let mut r = CaseResult::default();
